@@ -24,6 +24,7 @@ EXPLANATION = (
     "distribution, or between pairs of cluster conditionals); all n and K at once, both modes, 6 classes (MI inherits KL one-vs-all, "
     "checked in (a)).")
 from ..e8_gemini import ASSUMPTIONS as E8_ASSUMPTIONS
+ADOPT = [("C13", ["C13-d"], "a score (and its gradient) is a function of the predictions and the affinity alone: a value cached on the objective and reused on the evidence of identity or shape makes it depend on earlier calls")]
 ASSUMPTIONS = E8_ASSUMPTIONS + ["the naming convention <distance>_<ova|ovo> stated by the property", "numpy shape semantics of gcverif/e3_numpy.py"]
 
 PREFIX = {"mmd": "MMDGEMINI", "wasserstein": "WassersteinGEMINI", "kl": "KLGEMINI", "tv": "TVGEMINI", "hellinger": "HellingerGEMINI",
